@@ -1,1 +1,2 @@
-// Correspondence suites for property C18. Each suite is a #[test] fn named verif_c18_<suite>.
+// Correspondence suites for property C18 live in harness/hooks/query.rs (they need the private
+// `processor`/`state` modules of `crate::query`): verif_c18_tables, verif_c18_histories.
